@@ -23,13 +23,16 @@ func drawCall(r *rng.R, id uint64) rpcCall {
 	if r.Intn(40) == 0 {
 		c.size = 70000
 	}
+	if r.Intn(5) == 0 {
+		c.sub = 1 + r.Intn(3)
+	}
 	return c
 }
 
 // C04: every RPC call gets its own handler run, result and status.
 func C04(c *runner.Cfg) *report.Result {
 	res := report.New("C04", "")
-	res.Rule = "G concurrent callers issue seeded calls (unary via Request and via Channel+Response, oneway, server-/client-streaming, bidirectional, early response, late response; handler outcomes OK with bytes/string/message/nil results, application-defined codes with unicode messages, every standard code, deliberate panics) over 1..4 shared connections with a channel target of 2 (forces connection growth); each request carries (call id, behaviour, stream length, size, crc) and the handler is a deterministic function of it, so the expected (result bytes, code, message, stream) is computed independently; oracles: result/status equality per call id, stream messages in order before the end, handler invocation count == 1 per issued call (oneway: after quiescence), a oneway call observed through Channel+Response is non-OK, C04/oneway-stall: oneway calls under a 250 ms timeout context while the client->server direction of a proxy is paused and the write queue is 16..256 KiB (nothing cut): after the proxy resumes every call that returned OK ran its handler exactly once and every non-OK call at most once (a failed send must not be reported as OK), malformed replies (garbage, truncated, wrong type, empty status) from a raw mpx server surface as non-OK; non-trivial = call with a non-empty result, a stream or a non-OK expectation; distinct = distinct call ids"
+	res.Rule = "G concurrent callers issue seeded calls (unary via Request and via Channel+Response, oneway, server-/client-streaming, bidirectional, early response, late response; handler outcomes OK with bytes/string/message/nil results, application-defined codes with unicode messages, every standard code, deliberate panics) over 1..4 shared connections with a channel target of 2 (forces connection growth); a fifth of the requests carry 1..3 subservice calls in front of the method call which the handler must find unchanged; each request carries (call id, behaviour, stream length, size, crc) and the handler is a deterministic function of it, so the expected (result bytes, code, message, stream) is computed independently; oracles: result/status equality per call id, stream messages in order before the end, handler invocation count == 1 per issued call (oneway: after quiescence), a oneway call observed through Channel+Response is non-OK, C04/oneway-stall: oneway calls under a 250 ms timeout context while the client->server direction of a proxy is paused and the write queue is 16..256 KiB (nothing cut): after the proxy resumes every call that returned OK ran its handler exactly once and every non-OK call at most once (a failed send must not be reported as OK), malformed replies (garbage, truncated, wrong type, empty status) from a raw mpx server surface as non-OK; non-trivial = call with a non-empty result, a stream or a non-OK expectation; distinct = distinct call ids"
 	logger := netx.NewRecLogger()
 	hooks := netx.Install(c.Seed)
 	if c.Variant != "race" {
@@ -166,6 +169,7 @@ func C04(c *runner.Cfg) *report.Result {
 	res.Count("calls", calls.Load())
 	res.Count("calls_with_non_ok_expectation", nonOKExpected.Load())
 	res.Count("handler_invocations", srvSide.enter.Load())
+	res.Count("subservice_calls_in_requests", srvSide.subcalls.Load())
 	res.Observe("hook_hits", hooks.Hits())
 	fk, fd := hooks.Failures()
 	for k, n := range fk {
